@@ -301,3 +301,155 @@ Proof.
     assert (1 <= length (ser_entry e))%nat by (unfold ser_entry; rewrite !app_length; simpl; lia). lia. }
   lia.
 Qed.
+
+(* ---- the for-each-ref line parser is lossless: every field comes back byte for byte ---- *)
+Lemma split_on_nosep c w : ~ In c w -> split_on c w = [w].
+Proof.
+  induction w as [|x w IH]; intros Hn; [reflexivity|]. cbn [split_on].
+  destruct (N.eqb_spec x c) as [->|Hne]; [exfalso; apply Hn; now left|].
+  rewrite IH; [reflexivity|]. intros Hin. apply Hn. now right.
+Qed.
+
+Lemma split_on_app c w rest : ~ In c w -> split_on c (w ++ c :: rest) = w :: split_on c rest.
+Proof.
+  induction w as [|x w IH]; intros Hn; cbn [app split_on].
+  - now rewrite N.eqb_refl.
+  - destruct (N.eqb_spec x c) as [->|Hne]; [exfalso; apply Hn; now left|].
+    rewrite IH; [reflexivity|]. intros Hin. apply Hn. now right.
+Qed.
+
+Lemma unhex_no_sp : forall s h, unhex h = Some s -> ~ In SP h.
+Proof.
+  induction s as [|x s IH]; intros h E Hin; destruct h as [|a [|b h']]; cbn [unhex] in E; try discriminate; try contradiction.
+  - destruct (unhexdigit a), (unhexdigit b), (unhex h'); discriminate.
+  - destruct (unhexdigit a) as [da|] eqn:Ea; [|discriminate]. destruct (unhexdigit b) as [db|] eqn:Eb; [|discriminate].
+    destruct (unhex h') as [t|] eqn:Et; [|discriminate]. injection E as _ <-.
+    destruct Hin as [->|[->|Hin]]; [vm_compute in Ea; discriminate|vm_compute in Eb; discriminate|].
+    now apply (IH h').
+Qed.
+
+Lemma hex_no_sp s : Forall (fun b => b < 256) s -> ~ In SP (hex s).
+Proof. intros Hs. apply (unhex_no_sp s). now apply unhex_hex. Qed.
+
+Theorem parse_reference_lossless oid typ ds name size :
+  length oid = 20%nat -> Forall (fun b => b < 256) oid ->
+  ~ In SP typ -> ~ In SP ds -> ~ In SP name -> parse_uint10 ds 64 = Some size ->
+  parse_reference (hex oid ++ SP :: typ ++ SP :: ds ++ SP :: name) = Ok (mk_reference name typ (sat32b size) oid).
+Proof.
+  intros Hlen Hb Ht Hd Hn Hsz. unfold parse_reference.
+  rewrite split_on_app by now apply hex_no_sp. rewrite split_on_app by exact Ht. rewrite split_on_app by exact Hd.
+  rewrite split_on_nosep by exact Hn.
+  unfold new_oid. rewrite unhex_hex by exact Hb. rewrite Hlen. cbn [Nat.eqb]. rewrite Hsz. reflexivity.
+Qed.
+
+(* the name may end in anything that is not a blank: CR, TAB, U+00A0, U+3000 ... *)
+Example parse_reference_keeps_odd_names :
+  match parse_reference (hex (repeat 171 20) ++ SP :: str "commit" ++ SP :: str "217" ++ SP :: (str "refs/heads/main" ++ [194; 160; 9; 13])) with
+  | Ok r => r_name r = str "refs/heads/main" ++ [194; 160; 9; 13] /\ r_size r = 217
+  | _ => False
+  end.
+Proof. vm_compute. split; reflexivity. Qed.
+
+(* ---- the cat-file header parser likewise: `<oid> <type> <size>` followed by one more byte (the LF) ---- *)
+Lemma firstn_all_but_last {A} (l : list A) e : firstn (length (l ++ [e]) - 1) (l ++ [e]) = l.
+Proof. rewrite app_length. cbn [length]. replace (length l + 1 - 1)%nat with (length l) by lia. apply firstn_blen. Qed.
+
+Lemma last_three {A} (a b c d : A) : List.last [a; b; c] d = c.
+Proof. reflexivity. Qed.
+
+Theorem parse_batch_header_lossless oid typ ds e size :
+  length oid = 20%nat -> Forall (fun b => b < 256) oid ->
+  ~ In SP typ -> ~ In SP ds -> parse_uint10 ds 64 = Some size ->
+  parse_batch_header (hex oid ++ SP :: typ ++ SP :: ds ++ [e]) = Ok (mk_bheader oid typ (sat32b size)).
+Proof.
+  intros Hlen Hb Ht Hd Hsz.
+  set (body := hex oid ++ SP :: typ ++ SP :: ds).
+  assert (Eh : hex oid ++ SP :: typ ++ SP :: ds ++ [e] = body ++ [e]).
+  { unfold body. rewrite <- !app_assoc. cbn [app]. rewrite <- !app_assoc. reflexivity. }
+  rewrite Eh. clear Eh. unfold parse_batch_header.
+  destruct (body ++ [e]) as [|x l] eqn:El; [destruct body; discriminate|]. rewrite <- El. clear x l El.
+  assert (Eb : bto (body ++ [e]) (blen (body ++ [e]) - 1) = Some body).
+  { unfold bto, blen. destruct (N.leb_spec (N.of_nat (length (body ++ [e])) - 1) (N.of_nat (length (body ++ [e])))); [|lia].
+    f_equal. replace (N.to_nat (N.of_nat (length (body ++ [e])) - 1)) with (length (body ++ [e]) - 1)%nat by lia.
+    apply firstn_all_but_last. }
+  rewrite Eb. cbn [of_opt]. unfold body.
+  rewrite split_on_app by now apply hex_no_sp. rewrite split_on_app by exact Ht. rewrite split_on_nosep by exact Hd.
+  unfold last_word. rewrite last_three.
+  destruct (beqb ds (str "missing")) eqn:Em.
+  { apply beqb_eq in Em. subst ds. vm_compute in Hsz. discriminate. }
+  cbn [length Nat.ltb Nat.leb nth_error]. unfold new_oid. rewrite unhex_hex by exact Hb. rewrite Hlen. cbn [Nat.eqb]. rewrite Hsz. reflexivity.
+Qed.
+
+(* ---- decimal printing round trip (fmt "%d" then strconv.ParseUint), as for octal above ---- *)
+Definition dstep (a c : N) : N := a * 10 + (c - 48).
+Definition all_digits (s : bytes) : Prop := Forall (fun c => 48 <= c <= 57) s.
+
+Lemma undec_acc_spec s : forall a, all_digits s -> undec_acc s a = Some (fold_left dstep s a).
+Proof.
+  induction s as [|c s IH]; intros a H; simpl; [reflexivity|].
+  inversion H as [|? ? Hc Hs]; subst. unfold is_digit.
+  replace ((48 <=? c) && (c <=? 57)) with true by lia. now rewrite IH.
+Qed.
+
+Lemma digits_spec fuel : forall n acc, n < 10 ^ N.of_nat fuel -> (1 <= fuel)%nat ->
+  exists ds, digits fuel n acc = ds ++ acc /\ ds <> [] /\ all_digits ds /\
+             forall a, fold_left dstep ds a = a * 10 ^ N.of_nat (length ds) + n.
+Proof.
+  induction fuel as [|f IH]; intros n acc Hn Hf; [lia|]. cbn [digits].
+  destruct (n <? 10) eqn:E.
+  - exists [48 + n mod 10]. repeat split; try discriminate.
+    + constructor; [|constructor]. lia.
+    + intros a. cbn [fold_left length]. unfold dstep. change (N.of_nat 1) with 1. change (10 ^ 1) with 10. lia.
+  - apply N.ltb_ge in E. destruct f as [|f'].
+    { change (10 ^ N.of_nat 1) with 10 in Hn. lia. }
+    assert (Hd : n / 10 < 10 ^ N.of_nat (S f')).
+    { replace (N.of_nat (S (S f'))) with (N.succ (N.of_nat (S f'))) in Hn by lia.
+      rewrite N.pow_succ_r' in Hn. apply N.div_lt_upper_bound; lia. }
+    destruct (IH (n / 10) ((48 + n mod 10) :: acc) Hd ltac:(lia)) as (ds & -> & Hne & Hall & Hval).
+    exists (ds ++ [48 + n mod 10]). repeat split.
+    + now rewrite <- app_assoc.
+    + destruct ds; discriminate.
+    + apply Forall_app. split; [assumption|]. constructor; [|constructor]. lia.
+    + intros a. rewrite fold_left_app, Hval. cbn [fold_left]. unfold dstep.
+      rewrite app_length. cbn [length].
+      replace (N.of_nat (length ds + 1)) with (N.succ (N.of_nat (length ds))) by lia.
+      rewrite N.pow_succ_r'. pose proof (N.div_mod' n 10). lia.
+Qed.
+
+Lemma size_nat_bound10 n : n < 10 ^ N.of_nat (S (N.size_nat n)).
+Proof.
+  eapply N.lt_le_trans; [apply size_nat_bound|]. apply N.pow_le_mono_l. lia.
+Qed.
+
+Lemma dec_spec n : dec n <> [] /\ all_digits (dec n) /\ undec (dec n) = Some n.
+Proof.
+  unfold dec. destruct (digits_spec (S (N.size_nat n)) n [] (size_nat_bound10 n) ltac:(lia))
+    as (ds & E & Hne & Hall & Hval).
+  rewrite app_nil_r in E. rewrite E. repeat split; try assumption.
+  unfold undec. destruct ds as [|d ds']; [congruence|].
+  rewrite undec_acc_spec by assumption. rewrite Hval. f_equal; lia.
+Qed.
+
+Lemma digits_no_sp s : all_digits s -> ~ In SP s.
+Proof. intros H Hin. eapply Forall_forall in H; [|exact Hin]. unfold SP in H. lia. Qed.
+
+Theorem parse_uint10_dec n : n < 2 ^ 64 -> parse_uint10 (dec n) 64 = Some n.
+Proof.
+  intros Hn. unfold parse_uint10. destruct (dec_spec n) as (_ & _ & ->).
+  destruct (N.ltb_spec n (2 ^ 64)); [reflexivity|lia].
+Qed.
+
+(* the closed forms: what git prints for an object of [size] bytes is read back as that size (saturated to 32 bits) *)
+Corollary parse_reference_printed oid typ name size :
+  length oid = 20%nat -> Forall (fun b => b < 256) oid -> ~ In SP typ -> ~ In SP name -> size < 2 ^ 64 ->
+  parse_reference (hex oid ++ SP :: typ ++ SP :: dec size ++ SP :: name) = Ok (mk_reference name typ (sat32b size) oid).
+Proof.
+  intros. apply parse_reference_lossless; try assumption; [apply digits_no_sp, dec_spec|now apply parse_uint10_dec].
+Qed.
+
+Corollary parse_batch_header_printed oid typ size :
+  length oid = 20%nat -> Forall (fun b => b < 256) oid -> ~ In SP typ -> size < 2 ^ 64 ->
+  parse_batch_header (hex oid ++ SP :: typ ++ SP :: dec size ++ [10]) = Ok (mk_bheader oid typ (sat32b size)).
+Proof.
+  intros. apply parse_batch_header_lossless; try assumption; [apply digits_no_sp, dec_spec|now apply parse_uint10_dec].
+Qed.
